@@ -79,6 +79,7 @@ std::string plan_to_text(const Plan &p) {
     if (!p.doc2.empty()) t += "doc2 " + to_hex(p.doc2) + "\n";
     t += "ops " + ops_text(p.ops) + "\n";
     if (!p.ops2.empty()) t += "ops2 " + ops_text(p.ops2) + "\n";
+    for (auto &sp : p.sub) { std::string st = plan_to_text(sp); t += "sub " + to_hex((const uint8_t *)st.data(), st.size()) + "\n"; }
     if (!p.note.empty()) {
         std::istringstream is(p.note); std::string l;
         while (std::getline(is, l)) t += "# " + l + "\n";
@@ -119,6 +120,7 @@ bool plan_from_text(const std::string &t, Plan &p, std::string &err) {
             else if (k == "doc2") { if (!from_hex(v, p.doc2)) { err = "bad doc2 hex"; return false; } }
             else if (k == "ops") { if (!parse_ops(v, p.ops)) { err = "bad ops"; return false; } }
             else if (k == "ops2") { if (!parse_ops(v, p.ops2)) { err = "bad ops2"; return false; } }
+            else if (k == "sub") { Bytes b; if (!from_hex(v, b)) { err = "bad sub hex"; return false; } Plan sp; std::string e2; if (!plan_from_text(std::string(b.begin(), b.end()), sp, e2)) { err = "bad sub plan: " + e2; return false; } p.sub.push_back(sp); }
             else if (k == "expect") { size_t q = v.find(' '); p.expect_clause = v.substr(0, q); if (q != std::string::npos) p.expect_hash = std::stoull(v.substr(q + 1), nullptr, 16); }
             else { err = "unknown key " + k; return false; }
         } catch (...) { err = "bad value for " + k; return false; }
@@ -130,6 +132,7 @@ bool plan_from_text(const std::string &t, Plan &p, std::string &err) {
 
 uint64_t plan_digest(const Plan &p) {
     Plan q = p;
+    for (auto &sp : q.sub) { sp.seed = 0; sp.index = 0; sp.note.clear(); sp.faults.clear(); }
     q.seed = 0; q.index = 0; q.note.clear(); q.expect_clause.clear(); q.expect_hash = 0; q.faults.clear(); q.prop.clear();
     std::string t = plan_to_text(q);
     return fnv_str(t);
